@@ -355,7 +355,7 @@ func c20Delay(c *Check, P string) {
 		re := ReachEdge(e, nil)
 		ok := !reachesAny(re, inner)
 		for _, r := range Returns(pub) {
-			if re[r] && !AllOrigins(r.Results[0], ResultOfAny(applyCalls, 0)) {
+			if os := OriginsAt(pub, r, r.Results[0]); re[r] && (len(os) == 0 || !allOf(os, ResultOfAny(applyCalls, 0))) {
 				ok = false
 			}
 		}
@@ -943,6 +943,14 @@ func c20Observe(c *Check, P string, fn *ssa.Function, kind string, setters, gett
 				}
 			}
 			c.Report(okAll, P+".O3", "METRICS-MARK-ALL", fn, mk.Pos(), "publisher mark", "every message of the batch is marked (full range)")
+			// each message keeps its own context: the mark is added to that message's context, not to another one's
+			okOwn := false
+			if call, ok := firstOrigin(Arg(mk, 0)).(*ssa.Call); ok && len(call.Call.Args) == 1 {
+				if cx, isC := firstOrigin(call.Call.Args[0]).(*ssa.Call); isC && CalleeName(cx) == nContext {
+					okOwn = sameValue(Receiver(cx), Receiver(mk)) && cx.Block() == mk.Block()
+				}
+			}
+			c.Report(okOwn, P+".O3", "METRICS-MARK-OWN-CONTEXT", fn, mk.Pos(), "publisher mark", "the marked context of a message is derived from that message's own context, inside the loop (the other values of its context — a delay, tracing — stay its own)")
 			// the getter consulted in the defer is the pair of the setter used, and reads the context captured BEFORE marking
 			var used *ssa.Function
 			if call, ok := firstOrigin(Arg(mk, 0)).(*ssa.Call); ok {
